@@ -389,6 +389,40 @@ func checkCollisionDetection(c *Ctx, gen *packages.Package) {
 		}
 		return true
 	})
+	// the spec name comes first: the Go name is only the fallback for objects that have no other
+	if bySpecName {
+		var order []string
+		var nameVar types.Object
+		ast.Inspect(detector.Body, func(n ast.Node) bool {
+			as, ok := n.(*ast.AssignStmt)
+			if !ok || len(as.Lhs) != 1 || len(as.Rhs) != 1 {
+				return true
+			}
+			call, ok := ast.Unparen(as.Rhs[0]).(*ast.CallExpr)
+			if !ok || len(call.Args) != 1 {
+				return true
+			}
+			lit, ok := goan.StringVal(gen.TypesInfo, call.Args[0])
+			if !ok || (lit != "OriginalName" && lit != "Name") {
+				return true
+			}
+			id, ok := as.Lhs[0].(*ast.Ident)
+			if !ok {
+				return true
+			}
+			obj := gen.TypesInfo.ObjectOf(id)
+			if nameVar == nil {
+				nameVar = obj
+			}
+			if obj == nameVar {
+				order = append(order, lit)
+			}
+			return true
+		})
+		if len(order) >= 2 && order[0] != "OriginalName" {
+			bySpecName = false
+		}
+	}
 	// … and by their own name whatever else they carry: a first-non-empty scan over field names
 	// must not let the package alias stand in for the name
 	aliasFirst := false
@@ -430,8 +464,8 @@ func checkCollisionDetection(c *Ctx, gen *packages.Package) {
 	})
 	c.Check(!aliasFirst, rule, "generator."+load.FuncName(detector)+" › objects identified by their own name", c.posOf(gen, detector.Pos()), "the package alias qualifies the name, it does not replace it",
 		"the collision check takes the first non-empty of a field list in which PackageAlias precedes Name: every operation of one package has the same identity, so two operation ids mangled to one file overwrite each other again")
-	c.Check(bySpecName, rule, "generator."+load.FuncName(detector)+" › objects identified by their spec name", c.posOf(gen, detector.Pos()), "reads the OriginalName field",
-		"the collision check identifies objects by their Go name only: two definitions carrying the same x-go-name look like one object and overwrite each other silently")
+	c.Check(bySpecName, rule, "generator."+load.FuncName(detector)+" › objects identified by their spec name", c.posOf(gen, detector.Pos()), "reads the OriginalName field first",
+		"the collision check identifies objects by their Go name (the spec name is not read, or only as a fallback): two definitions carrying the same x-go-name look like one object and overwrite each other silently")
 	c.Check(returned, rule, "generator.GenOpts.write › collision error is returned", c.posOf(gen, callPos), "if err := …; err != nil { return err }", "the error of the collision check is not returned: generation goes on and overwrites the file")
 	// no success return before the check (e.g. the skip_exists shortcut): a second object skipped
 	// because the first one's file exists would never be reported
@@ -602,6 +636,7 @@ func packageRegexpLiteral(pk *packages.Package, e ast.Expr) (string, bool) {
 
 // generatorLoopExits: the reviewed early exits of the generator's loops over input collections.
 var generatorLoopExits = map[string]string{
+	"generator.hasValidations › loop over spec.Schema #1 › answers true #1":                         "‹spec.Schema›.Ref.String() != \"\" || hasValidations(&‹spec.Schema›, false) ⇒ an allOf member that is a $ref, or that carries validations of its own (looked for recursively), makes the composed schema validatable",
 	"generator.codeGenOpBuilder.analyzeTags › loop over spec.Tag #1 › continue #1":                  "‹spec.Tag›.Name != ‹string› ⇒ search for the tag object of the chosen tag name: other tags are passed over",
 	"generator.codeGenOpBuilder.analyzeTags › loop over spec.Tag #1 › break #1":                     "‹bool› ⇒ search: the tag was found and carries x-go-name",
 	"generator.codeGenOpBuilder.analyzeTags › loop over spec.Tag #1 › break #2":                     "‹bool› ⇒ search: the tag was found and carries x-go-operation-tag",
